@@ -535,3 +535,58 @@ UNITS += [
          assumptions=["UniformRealDistribution::operator(): one draw in [a, a + delta] (fma; not under contract)"],
          note="UniformBoxDistribution::operator(): three draws, component i from axis i's own sampler (so inside the box)"),
 ]
+
+
+# ---------------------------------------------------------------------------
+# IsotropicDistribution: polar cosine on [-1, 1], azimuth on [0, 2 pi], handed to from_spherical within its precondition
+# ---------------------------------------------------------------------------
+def build_isotropic(ctx):
+    from vkit.extract import init_list, ExtractionDrift
+    import re
+    ct = ctx.func(ISO, r"^CELER_FUNCTION IsotropicDistribution<RealType>::IsotropicDistribution\(\)", [], name="IsotropicDistribution()", skip_init_list=True)
+    il = [(m, re.sub(r"\s+", " ", e)) for m, e in init_list(ct.head)]
+    if [m for m, e in il] != ["sample_costheta_", "sample_phi_"] or any(len(e.split(",")) != 2 for m, e in il):
+        raise ExtractionDrift("IsotropicDistribution initializer list is not ': sample_costheta_(a, b), sample_phi_(a, b)': %r" % (il,))
+    (ca, cb), (pa, pb) = [[x.strip().replace("constants::pi", "PI") for x in e.split(",")] for m, e in il]
+    pc = ctx.func(ISO, r"^IsotropicDistribution<RealType>::operator\(\)\(Generator& rng\) -> result_type", [
+        Rule(r"sample_(costheta|phi)_\(rng\)", r"URD_sample(&self->sample_\1_, rng)", 2, note="UniformRealDistribution call -> its contract"),
+        Rule(r"return from_spherical\(([^;]*)\);", r"return FROM_SPHERICAL(\1);", 1, note="from_spherical -> uninterpreted value, precondition asserted, arguments recorded"),
+    ], name="IsotropicDistribution::operator()")
+    return (HDR + """
+typedef struct Engine Engine;
+typedef real_type Dir3;          /* opaque direction value */
+typedef struct { real_type a_, delta_; } UniformRealDist;
+typedef struct { UniformRealDist sample_costheta_, sample_phi_; } IsotropicDistribution;
+unsigned g_draws; real_type g_cost, g_phi;
+Dir3 __CPROVER_uninterpreted_from_spherical(real_type, real_type);
+static Dir3 FROM_SPHERICAL(real_type costheta, real_type phi)
+{
+    __CPROVER_assert(costheta >= -1 && costheta <= 1, "celer_expect: from_spherical costheta >= -1 && costheta <= 1");
+    g_cost = costheta; g_phi = phi;
+    return __CPROVER_uninterpreted_from_spherical(costheta, phi);
+}
+/* UniformRealDistribution::operator(): one draw, a value in [a, a + delta] (fma; not under contract) */
+real_type URD_sample(UniformRealDist const* d, Engine* rng)
+__CPROVER_requires(d != 0)
+__CPROVER_assigns(g_draws)
+__CPROVER_ensures(g_draws == __CPROVER_old(g_draws) + 1 && __CPROVER_return_value >= d->a_ && __CPROVER_return_value <= d->a_ + d->delta_)
+;
+#define PI 3.14159265358979323846
+Dir3 ISO_call(IsotropicDistribution const* self, Engine* rng)
+__CPROVER_requires(self != 0 && g_draws == 0)
+/* object invariant = the constructor's initializer list, whose argument text is substituted here each run (UniformRealDistribution(a, b): a_ = a, delta_ = b - a) */
+__CPROVER_requires(self->sample_costheta_.a_ == (""" + ca + """) && self->sample_costheta_.delta_ == (""" + cb + """) - (""" + ca + """) && self->sample_phi_.a_ == (""" + pa + """) && self->sample_phi_.delta_ == (""" + pb + """) - (""" + pa + """))
+__CPROVER_assigns(g_draws, g_cost, g_phi)
+/* two draws; the direction is from_spherical(cos theta, phi) of exactly those two values, cos theta in [-1, 1] (from_spherical's own precondition), phi in [0, 2 pi] */
+__CPROVER_ensures(g_draws == 2 && g_cost >= -1 && g_cost <= 1 && g_phi >= 0 && g_phi <= 2 * PI)
+__CPROVER_ensures(__CPROVER_return_value == __CPROVER_uninterpreted_from_spherical(g_cost, g_phi) || __CPROVER_isnand(__CPROVER_return_value))
+{""" + pc.body + """}
+void h_iso(void) { IsotropicDistribution d; Engine* e; ISO_call(&d, e); VERIF_CANARY(); }
+""")
+
+
+UNITS += [
+    Unit("c15_isotropic", build_isotropic, "h_iso", enforce="ISO_call", replace=["URD_sample"], timeout=120, backend=["sat", "cvc5"], must_have=[r"ISO_call.postcondition", r"celer_expect"], checks=["--bounds-check", "--pointer-check"],
+         assumptions=["UniformRealDistribution::operator(): one draw in [a, a + delta] (fma; not under contract)", "from_spherical uninterpreted: that its result is a UNIT vector is not decided"],
+         note="IsotropicDistribution: two draws; cos(theta) in [-1, 1] and phi in [0, 2 pi] handed to from_spherical within its precondition"),
+]
